@@ -9,6 +9,8 @@
 (*   ranks  : number of ranks                                              *)
 (*   lm     : "fork" (one rank, real Fork launcher) | "mpi" (each rank is  *)
 (*            one instance of the exec script, rank id from the launcher)  *)
+(*   fl     : the MPI flavor of the launcher ("none" for fork): decides which *)
+(*            variable carries the rank id to the exec script                *)
 (*   pre, post : sequences of entries of td.pre_exec / td.post_exec; an    *)
 (*            entry is [k |-> "g", on |-> {}] (a string: every rank) or    *)
 (*            [k |-> "r", on |-> S] (a dict with a command for ranks in S) *)
@@ -140,6 +142,26 @@ Export(ev) == [i \in 1 .. Len(ev) |-> "described"]
 SeenEnv(c) == Export(Activate(c, EnvBefore(c)))
 
 \* what the executable of rank r sees besides argv / environment
+\* rank id: the launcher of flavor fl announces the rank in its native variables;
+\* the exec script reads the variables get_rank_cmd lists for the flavor that was
+\* DETECTED from the launcher binary (which + version output) and exports RP_RANK
+MpiFlavors == {"ompi", "hydra", "spectrum", "pals", "unknown"}
+Native(fl) ==
+  CASE fl = "ompi"     -> {"PMIX_RANK", "OMPI_COMM_WORLD_RANK"}
+    [] fl = "spectrum" -> {"PMIX_RANK", "OMPI_COMM_WORLD_RANK"}
+    [] fl = "hydra"    -> {"PMI_RANK"}
+    [] fl = "pals"     -> {"PALS_RANKID"}
+    [] fl = "unknown"  -> {"MPI_RANK"}
+    [] OTHER           -> {}
+Reads(det) ==
+  {"MPI_RANK", "PMIX_RANK"}
+  \cup (IF det = "hydra" THEN {"PMI_ID", "PMI_RANK"} ELSE {})
+  \cup (IF det = "pals"  THEN {"PALS_RANKID"} ELSE {})
+\* RP_RANK as the exec script of rank r ends up with (-1: unset); reference: det = fl
+RankIdOf(c, r, det) ==
+  IF c.lm = "fork" THEN 0
+  ELSE IF Native(c.fl) \cap Reads(det) # {} THEN r ELSE -1
+
 \* GPU ids in rank r's slot: whole GPUs are exclusive, shares of a GPU are packed
 \* (two halves / four quarters on one GPU)
 GpusOf(c, r) ==
